@@ -45,9 +45,18 @@ def run(tier):
     import ast
     parser = repo.modules['parser']
     src = parser.text
-    ok_float = 'number = float(match_number.group(1))' in src
-    pr.add_obligation('C12.parser.number-literals-are-floats', 'unsat' if ok_float else 'sat', 'syntactic', 0.0,
-                      detail='parser._parse_unary_expression builds number literals with float()')
+    # decided natively (a syntactic match on the parser's text would turn a renamed local into an alarm): the literal of a
+    # parsed expression is a float object
+    from pyvc.replay import run_witness
+    res = run_witness('from bare_script.parser import parse_expression\n'
+                      'vals = [parse_expression(t) for t in ("1", "2.0", "3e+2", "007")]\n'
+                      'bad = [repr(v) for v in vals if type(v.get("number")) is not float]\n'
+                      'result = {"violates": bool(bad), "observed": bad}\n')
+    verdict = 'sat' if res.get('violates') else ('unsat' if 'violates' in res else 'unknown')
+    pr.add_obligation('C12.parser.number-literals-are-floats', verdict, 'native', 0.0,
+                      detail='parse_expression builds number literals as floats (checked on four literal forms): ' + str(res)[:200],
+                      inputs={'text': '1'} if verdict == 'sat' else None,
+                      replay={'reproduced': True, 'observed': res} if verdict == 'sat' else None)
     # (5) value_json prints an integral float as the int spelling in front of every terminator
     from .C14 import cleanup_obligations, _Only
     cleanup_obligations(_Only(pr, lambda name: 'C12' in name.split('.')[0]))
